@@ -55,6 +55,8 @@ mod blob;
 pub mod error;
 mod io;
 pub use io::IoDriver;
+#[cfg(pearl_verif)]
+pub use io::verif_io;
 mod record;
 mod storage;
 
